@@ -112,11 +112,22 @@ pub fn case(kind: u32, xs: &[u32], ys: &[u32]) -> Case {
             let g2 = HpoGroup::from(xs.to_vec());
             let hs: HashSet<HpoTermId> = v1.iter().copied().collect();
             let g3 = HpoGroup::from(hs);
-            let g4: HpoGroup = v1.into_iter().collect();
+            let g4: HpoGroup = v1.iter().copied().collect();
+            // FromIterator<HpoTerm>: the terms of an ontology holding these ids, in the given order (repeats kept)
+            let g5: HpoGroup = if xs.iter().all(|x| *x >= 1 && *x < 10_000_000) {
+                let mut bld = hpo::builder::Builder::new();
+                for x in xs {
+                    bld.new_term("t", *x);
+                }
+                let ont = bld.terms_complete().connect_all_terms().calculate_information_content().expect("ic").build_minimal();
+                xs.iter().map(|x| ont.hpo(HpoTermId::from(*x)).expect("term")).collect()
+            } else {
+                v1.iter().copied().collect()
+            };
             if g1.len() >= 2 {
                 tags.push("nt");
             }
-            V::L(vec![ln(&ids(&g1)), ln(&ids(&g2)), ln(&ids(&g3)), ln(&ids(&g4))])
+            V::L(vec![ln(&ids(&g1)), ln(&ids(&g2)), ln(&ids(&g3)), ln(&ids(&g4)), ln(&ids(&g5))])
         }
     };
     Case { input, obs, tags }
